@@ -60,6 +60,10 @@ type Options struct {
 	StripFromChip   []int // data groups listed in the SOD but not stored on the chip
 	CardAccessExtra [][]byte // SecurityInfos present in EF.CardAccess but NOT in DG14 (downgrade)
 	NoDG14PaceInfos bool
+	// CloneOwnKeys: the chip is a clone that generated its OWN chip-authentication / active-authentication
+	// key pairs: it stores DG14 / DG15 with those keys (so they differ from what the issuer signed)
+	// and holds the matching private keys.
+	CloneOwnKeys bool
 	Transport   chipsim.Transport
 	Personality chipsim.Personality
 	ChooseScalar chipsim.ChooseScalarFunc
@@ -381,10 +385,61 @@ func New(o Options) (*Passport, error) {
 	p.AppFiles[chipsim.FidCOM] = chipsim.BuildCOM("0107", "040000", tags)
 	p.AppFiles[chipsim.FidSOD] = sod
 
+	var camKey *chipsim.ECKey
+	if o.CloneOwnKeys {
+		crnd := rand.New(rand.NewSource(o.Seed ^ 0xc10e))
+		var cloneSpecs []chipsim.CAKeySpec
+		for i := range chipCAKeys {
+			curve, _ := chipsim.CurveByParamID(chipCAKeys[i].ParamID)
+			chipCAKeys[i].Priv = randScalar(curve, crnd)
+			sp := caSpecs[i]
+			sp.Priv = chipCAKeys[i].Priv
+			sp.X, sp.Y = nil, nil
+			cloneSpecs = append(cloneSpecs, sp)
+		}
+		if len(cloneSpecs) > 0 {
+			var extra [][]byte
+			for _, pi := range paceInfos {
+				extra = append(extra, chipsim.PaceInfo(pi))
+			}
+			if o.AA != nil && o.AA.Type == "ecdsa" {
+				extra = append(extra, chipsim.ActiveAuthenticationInfo(ecdsaPlainOID(o.AA.Hash)))
+			}
+			dg14, err := chipsim.BuildDG14(cloneSpecs, extra...)
+			if err != nil {
+				return nil, err
+			}
+			if _, ok := p.AppFiles[dgFid(14)]; ok {
+				p.AppFiles[dgFid(14)] = dg14
+			}
+			camKey = &chipsim.ECKey{ParamID: chipCAKeys[0].ParamID, Priv: chipCAKeys[0].Priv}
+		}
+		if p.AAKey != nil {
+			var k2 *chipsim.AAKey
+			if o.AA.Type == "rsa" {
+				k2, err = aaRSA(o.AA.Bits, int(o.Seed%3)+3, o.AA.Hash)
+				if err != nil {
+					return nil, err
+				}
+			} else {
+				curve, _ := chipsim.CurveByParamID(o.AA.ParamID)
+				k2 = &chipsim.AAKey{Type: "ecdsa", Hash: o.AA.Hash, ParamID: o.AA.ParamID, Priv: randScalar(curve, crnd), SigFormat: o.AA.SigFormat}
+			}
+			spki, err := chipsim.AASubjectPublicKeyInfo(k2, o.AA.Named)
+			if err != nil {
+				return nil, err
+			}
+			if _, ok := p.AppFiles[dgFid(15)]; ok {
+				p.AppFiles[dgFid(15)] = chipsim.BuildDG15(spki)
+			}
+			p.AAKey = k2
+		}
+	}
+
 	p.Cfg = chipsim.Config{
 		MfFiles: p.MfFiles, AppFiles: p.AppFiles, MRZInfo: p.MRZInfo, CAN: o.CAN,
 		EnableBAC: o.BAC, EnablePACE: len(o.Pace) > 0, RequireAccessControl: !o.OpenChip,
-		Pace: o.Pace, CAKeys: chipCAKeys, AA: p.AAKey,
+		Pace: o.Pace, CAKeys: chipCAKeys, AA: p.AAKey, CamKey: camKey,
 		Transport: o.Transport, Personality: o.Personality, Rand: detReader{rand.New(rand.NewSource(o.Seed ^ 0xc41b))},
 		ChooseScalar: o.ChooseScalar,
 	}
